@@ -83,7 +83,7 @@ def main():
     checks=[C[i] for i in IDS if i in C and os.environ.get('ONLY','')=='' or i in os.environ.get('ONLY','').split(',') and i in C]
     na=[dict(property_id=i, reason="check not built yet (work in progress; DESIGN.md section 5 describes the planned procedure)") for i in IDS if i not in C]
     m=dict(version=1,
-      setup_cmd="cd /verif/harness && RUSTFLAGS='--cfg daniel729_chess_verif' CARGO_NET_OFFLINE=true CARGO_TARGET_DIR=/verif/target-checked cargo build --profile checked --offline && RUSTFLAGS='--cfg daniel729_chess_verif' CARGO_NET_OFFLINE=true CARGO_TARGET_DIR=/verif/target-plain cargo build --profile plain --offline",
+      setup_cmd="cd /verif/harness && RUSTFLAGS='--cfg daniel729_chess_verif' CARGO_NET_OFFLINE=true CARGO_TARGET_DIR=/verif/target-checked cargo build --profile checked --offline && RUSTFLAGS='--cfg daniel729_chess_verif' CARGO_NET_OFFLINE=true CARGO_TARGET_DIR=/verif/target-plain cargo build --profile plain --offline && cd /repo && CARGO_NET_OFFLINE=true CARGO_TARGET_DIR=/verif/target-repo cargo build --release --offline",
       hooks=dict(guard="--cfg daniel729_chess_verif",
         enable="RUSTFLAGS='--cfg daniel729_chess_verif'; ./check builds the harness crate /verif/harness, which includes /repo/src/*.rs by #[path], with this flag from the current working tree",
         baseline_off_cmd="cd /repo && cargo test --workspace --no-fail-fast --offline",
